@@ -120,7 +120,7 @@ def rule_pure(m):
                     res.sites += 1
                     res.fail(Finding('D-PURE', f.display(), 'call to ' + d['name'], f.nloc(n['i']),
                                      'call to non-reentrant library function %s() uses hidden shared state' % d['name']))
-    res.require_sites(20, 'fields / variables / casts')
+    res.require_sites(10, 'fields / variables / casts')
     return res
 
 
@@ -189,7 +189,7 @@ def rule_const_closure(m):
     res.notes.append('%d const entry points, %d functions in their closure' % (len(entries), len(visited)))
     res.extra = dict(entry_points=len(entries), closure=len(visited),
                      entry_sample=sorted({e.display() for e in entries})[:40])
-    res.require_sites(60, 'const entry points')
+    res.require_sites(30, 'const entry points')
     return res
 
 
@@ -270,7 +270,7 @@ def rule_guard(m):
         else:
             res.fail(Finding('D-GUARD', f.replace('/repo/', ''), 'no include guard', f + ':1',
                              'header has no include guard / #pragma once: including it twice redefines its contents'))
-    res.require_sites(11, 'headers')
+    res.require_sites(5, 'headers')
     return res
 
 
@@ -314,7 +314,7 @@ def rule_odr(m):
                                  'namespace-scope variable %s has external linkage and is not inline' % v['tname']))
             else:
                 res.ok(dict(variable=short(v['tname']), external=v['external'], inline=v['inline']))
-    res.require_sites(4, 'namespace-scope definitions')
+    res.require_sites(2, 'namespace-scope definitions')
     return res
 
 
@@ -360,7 +360,7 @@ def rule_throw(m):
             f = m.by_tname[tn][0]
             res.fail(Finding('D-THROW', short(tn), 'documented exception ' + exc, f.where(),
                              '%s must throw exactly %s for "%s" but throws %s' % (short(tn), exc, what, sorted(got) or 'nothing')))
-    res.require_sites(10, 'throw expressions')
+    res.require_sites(5, 'throw expressions')
     return res
 
 
@@ -429,7 +429,7 @@ def rule_encapsulation(m):
                                          'mirror half-edge / running total' % (cname, us['name'])))
                 else:
                     res.ok(None)
-    res.require_sites(60, 'fields / methods / using declarations')
+    res.require_sites(30, 'fields / methods / using declarations')
     return res
 
 
@@ -478,7 +478,7 @@ def rule_valsem(m):
                                  'field %s has type %s: a copy of the graph would share it with its source' % (f['name'], f['type'])))
             else:
                 res.ok(dict(cls=cname, field=f['name'], type=f['type']) if len(res.samples) < 8 else None)
-    res.require_sites(20, 'classes / fields')
+    res.require_sites(10, 'classes / fields')
     return res
 
 
